@@ -674,6 +674,16 @@ func (c *FnCtx) applyParamSpec(x *ssa.Call, ps *ParamSpec, common *ssa.CallCommo
 
 // havocGhosts: ghost state variables ("$Name" identifiers) used in a param spec become arbitrary.
 func (c *FnCtx) havocGhosts(st *State, ps *ParamSpec) {
+	for _, n := range ghostNamesOf(ps) {
+		k := "GH_" + n[1:]
+		c.g.heapSorts[k] = SBool
+		c.heap(c.entry, k, SBool)
+		st.heaps[k] = c.fresh("gh_"+n[1:], SBool)
+	}
+}
+
+// ghostNamesOf: the ghost variables a parameter spec's postconditions mention (the call may change them).
+func ghostNamesOf(ps *ParamSpec) []string {
 	seen := map[string]bool{}
 	var walk func(e Expr)
 	walk = func(e Expr) {
@@ -701,16 +711,8 @@ func (c *FnCtx) havocGhosts(st *State, ps *ParamSpec) {
 			walk(x.X)
 		}
 	}
-	for _, cl := range ps.Requires {
-		walk(cl.E)
-	}
 	for _, cl := range ps.Ensures {
 		walk(cl.E)
 	}
-	for _, n := range sortedKeys(seen) {
-		k := "GH_" + n[1:]
-		c.g.heapSorts[k] = SBool
-		c.heap(c.entry, k, SBool)
-		st.heaps[k] = c.fresh("gh_"+n[1:], SBool)
-	}
+	return sortedKeys(seen)
 }
